@@ -184,6 +184,8 @@ def run(ctx):
              '(a sizeof of a different, smaller or larger, member type-checks and truncates or overflows silently)', floor=60)
     from engine.sizeofrule import sizeof_match
     sizeof_match(ctx, prog)
+    from engine.fixture import generic_fixture
+    generic_fixture(ctx, [('SIZEOF-MATCH', lambda c_, p_: sizeof_match(c_, p_, minimum=0), 'bad_sizeof')])
 
     ctx.rule('FMT-FIRST', 'in the header readers, a per-channel table (peak_info_calloc, wavlike_read_peak_chunk) is allocated only after the channel count is final: dominated by the assignment of '
              'SF_INFO.channels, or by a rejecting parse-state test whose mask contains the bit set where the channel count is parsed', floor=4)
@@ -194,6 +196,8 @@ def run(ctx):
              '(a call passing both, a loop bounded by N that subscripts T) passes an assignment of T', floor=8)
     from engine.counttable import count_table
     count_table(ctx, prog)
+    from engine.fixture import generic_fixture as _gf
+    _gf(ctx, [('COUNT-TABLE', count_table, 'bad_counttable')])
 
     from engine.run import borrow
     borrow(ctx, 'C13', ['GROW-CAP', 'ITER-BOUNDS'], 'the read-chunk table grows while a header is parsed: capacity bookkeeping is memory safety of the parser')
